@@ -10,9 +10,11 @@
           was built while this revoke_and_ack was already owed (`raaSent < needRaa`); a batch built BEFORE
           the peer's commitment_signed arrived must go out first (channel.rs: `commitment_signed` sets
           `resend_order = CommitmentFirst`, `build_commitment_no_status_check` sets `RevokeAndACKFirst`);
-     (G2) new HTLCs must be covered by the sender's balance net of its pending outbound HTLCs
-          (`send_htlc` / `get_available_balances`), otherwise `value_to_self` underflows (truncated
-          subtraction in the model) and the balances of the two views drift apart;
+     (G2) new HTLCs must be covered by the sender's balance net of its pending outbound HTLCs that still
+          count against it — `liveSum`: every outbound HTLC except FAILED removals already signed away
+          (AwaitingRemoteRevokeToRemove(Failure) / AwaitingRemovedRemoteRevoke(Failure): in no commitment,
+          never subtracted) — as `send_htlc` → `get_available_balances` guarantees; otherwise
+          `value_to_self` underflows (truncated subtraction in the model) and the balances drift apart;
    and the proof additionally uses
      (G3) a batch removes each HTLC at most once (`(fulfills ++ fails).Nodup`).  No violation WITHOUT (G3)
           was found by exhaustive search (1.2 M states, duplicates allowed): a duplicate removal only
@@ -124,13 +126,13 @@ example : (runG (Sys.init 1000 1000) goodRun).isSome = true := by decide
 /-- The general invariant (guarded runs): the two settled balances add up to the channel value plus the
     amounts of fulfilled HTLCs that the receiver has already credited and the offerer not yet debited
     (`excess`: offerer state AwaitingRemoteRevokeToRemove(Success) / AwaitingRemovedRemoteRevoke(Success),
-    receiver copy gone); and each node's pending outbound HTLCs are covered by its balance — so no
-    subtraction of the model ever truncates.
+    receiver copy gone); and each node's live outbound HTLCs (`liveSum`: all but failed removals already
+    signed away) are covered by its balance — so no subtraction of the model ever truncates.
     Partial: needs the guards (G1)–(G3); without (G2) it is false (`agreement_fails_overdraw`). -/
 theorem balance_conservation_partial (va vb : Nat) (evs : List Ev) (s : Sys)
     (h : runG (Sys.init va vb) evs = some s) :
     s.a.valueToSelf + s.b.valueToSelf = s.total + excess s.a s.b + excess s.b s.a ∧
-    (s.a.outb.map (·.amt)).sum ≤ s.a.valueToSelf ∧ (s.b.outb.map (·.amt)).sum ≤ s.b.valueToSelf ∧
+    liveSum s.a ≤ s.a.valueToSelf ∧ liveSum s.b ≤ s.b.valueToSelf ∧
     s.total = va + vb := by
   have inv := Inv.run h
   have ht : s.total = va + vb := by
